@@ -15,7 +15,8 @@ def data():
     global _IDX, _RULES
     if _IDX is None:
         d = importlib.import_module("ural.tld_data")
-        _RULES = list(d.PUBLIC_SUFFIXES) + list(d.PRIVATE_SUFFIXES)
+        # a rule is a dotted label sequence: an entry written with a final dot is read as the rule it spells
+        _RULES = [r[:-1] if r.endswith(".") else r for r in list(d.PUBLIC_SUFFIXES) + list(d.PRIVATE_SUFFIXES)]
         _IDX = refpsl.Index(_RULES)
     return _RULES, _IDX
 
@@ -103,8 +104,6 @@ def _shard(task):
     sib = _SIB
     n, fails, hosts, nontriv = 0, [], 0, 0
     for r in rules[lo:hi]:
-        if r.endswith("."):
-            continue  # data artefact: never matches a hostname
         for h in derive(r, sib):
             hosts += 1
             if expected(h)[3]:
@@ -162,7 +161,7 @@ def _tldset(d):
 
 
 TLD_PREFIXES = ["", "a.", "www.a.co.", "xn--9ca.", "é.", "xn--zz.", "É.xn--9ca."]
-TLD_FORMS = ["lower", "upper", "puny", "puny-upper"]
+TLD_FORMS = ["lower", "upper", "puny", "puny-upper", "dot", "upper-dot"]
 
 
 def tld_spell(t, form):
@@ -171,7 +170,7 @@ def tld_spell(t, form):
             t = t.encode("idna").decode("ascii")
         except UnicodeError:
             pass
-    if form in ("upper", "puny-upper"):
+    if form in ("upper", "puny-upper", "upper-dot"):
         t = t.upper()
     return t
 
@@ -181,12 +180,13 @@ def judge_tld(t, prefix, form, fn):
     d = importlib.import_module("ural.tld_data")
     exp = refhost.decode_label(t) in _tldset(d)
     s = tld_spell(t, form)
+    dot = "." if form.endswith("dot") else ""  # a hostname may be written with its root dot
     if fn == "is_valid_tld":
         r = core.call(tld.is_valid_tld, s)
     elif fn == "has_valid_tld":
-        r = core.call(tld.has_valid_tld, prefix + s)
+        r = core.call(tld.has_valid_tld, prefix + s + dot)
     else:
-        r = core.call(tld.has_valid_tld, "http://" + prefix + s + ":8080/p")
+        r = core.call(tld.has_valid_tld, "http://" + prefix + s + dot + ":8080/p")
     got = r[1] if r[0] == "ok" else ["raised"] + list(r[1:2])
     return [] if got is exp else [("C08.tld", exp, got)]
 
